@@ -260,7 +260,7 @@ async fn run_narrow(n: Narrow, only: Option<usize>) -> Out {
         } else if code.is_empty() || before != after {
             let changed: Vec<&String> = before.keys().filter(|k| before.get(*k) != after.get(*k)).collect();
             out.violations.push(Violation {
-                signature: format!("C19|write-authz|{}|{}", case.family, case.form),
+                signature: format!("C19|write-authz|{}|{}", case.family, if case.form == "alone" { "alone" } else { "block" }),
                 summary: format!(
                     "P2 bundle narrowed by {n:?}: `{statement}` ({}) — the reference refuses it (a clause asks for a permission the Principal does not hold over its target), the engine answered {} and changed rows {changed:?}",
                     case.label, if code.is_empty() { "succeeded".to_string() } else { code.clone() }
